@@ -358,9 +358,10 @@ func c12Run(c *mc.Ctx) {
 func init() {
 	Register(&Check{
 		ID: "C12", Level: "exploration",
-		Rule:        "all 65536 message types; name lengths {0,1,2,5,255,256,4096,4097,65536} with arbitrary bytes x types x sequence-id alphabet (+ every single-bit id) x every fragmentation policy; 3 writers x 2 readers; first-word sweep (quick: all 65536 upper halves x 3 lower + all 65536 lower halves; thorough: all 2^32) on both readers; every strict prefix; marshal/unmarshal product incl. EXCEPTION messages with unknown fields; distinct = distinct parameter tuples / first words",
-		Assumptions: []string{"MarshalFastMsg with an empty method returns its documented error and is not a round-trip case", "message types are compared modulo 2^16 (the wire carries 16 bits)"},
-		Run:         c12Run,
+		Rule:          "all 65536 message types; name lengths {0,1,2,5,255,256,4096,4097,65536} with arbitrary bytes x types x sequence-id alphabet (+ every single-bit id) x every fragmentation policy; 3 writers x 2 readers; first-word sweep (quick: all 65536 upper halves x 3 lower + all 65536 lower halves; thorough: all 2^32) on both readers; every strict prefix; marshal/unmarshal product incl. EXCEPTION messages with unknown fields; distinct = distinct parameter tuples / first words",
+		Assumptions:   []string{"MarshalFastMsg with an empty method returns its documented error and is not a round-trip case", "message types are compared modulo 2^16 (the wire carries 16 bits)"},
+		Run:           c12Run,
+		UnownedNondet: func(sub string, raw json.RawMessage) bool { return sub == "msg" },
 		Replay: func(c *mc.Ctx, sub string, raw json.RawMessage) {
 			setAllocCap(256 << 20)
 			switch sub {
